@@ -193,7 +193,7 @@ func (eng *Engine) VerifyFunction(fn *ssa.Function, cone map[string]bool) (run *
 	st.alloc = Term{"alloc@0", SInt}
 	run.declare("alloc@0", "(declare-const alloc@0 Int)")
 	st.Assume(Ge(st.alloc, IntLit(1)))
-	fr := &Frame{fn: fn, regs: map[ssa.Value]Val{}, locals: map[*ssa.Alloc]Val{}, openLoops: map[int]bool{}, iters: map[int]*RangeIter{}, loopEntry: map[int]*Snapshot{}, loopAssign: map[int]*assignSet{}, decAt: map[int]Term{}}
+	fr := &Frame{fn: fn, regs: map[ssa.Value]Val{}, locals: map[*ssa.Alloc]Val{}, openLoops: map[int]bool{}, iters: map[int]*RangeIter{}, loopEntry: map[int]*Snapshot{}, loopAssign: map[int]*assignSet{}, loopLocals: map[int]map[*ssa.Alloc]Val{}, decAt: map[int]Term{}}
 	st.frame = fr
 	// parameters
 	run.entryVars = map[string]CVal{}
@@ -280,6 +280,24 @@ func (st *State) assumeWellTyped(t Term, ty types.Type) {
 	case *types.TypeParam:
 		if c := coreOf(u); c != nil {
 			st.assumeWellTyped(t, c)
+		}
+	case *types.Interface:
+		// references boxed in an interface value denote allocated objects
+		if t.Sort == SAny {
+			reg := st.run.eng.reg
+			var fs []Term
+			for _, key := range reg.anyOrder {
+				con := reg.anyCons[key]
+				switch con.Payload {
+				case SRef:
+					u := app(SRef, con.Accessor, t)
+					fs = append(fs, Implies(Term{"((_ is " + con.Ctor + ") " + t.S + ")", SBool}, And(Ge(u, IntLit(0)), Lt(u, st.alloc))))
+				case SSlice:
+					u := app(SSlice, con.Accessor, t)
+					fs = append(fs, Implies(Term{"((_ is " + con.Ctor + ") " + t.S + ")", SBool}, And(Ge(SliceArr(u), IntLit(0)), Lt(SliceArr(u), st.alloc), Ge(SliceLen(u), IntLit(0)), Le(SliceLen(u), SliceCap(u)))))
+				}
+			}
+			st.Assume(And(fs...))
 		}
 	}
 	if tp, ok := ty.(*types.TypeParam); ok {
